@@ -180,6 +180,56 @@ def run(ck):
                 pass
     ck.extra['loader_calls_in_every_combination'] = abuse
     loader_check('after-every-loader-call-combination')
+    # consumers built FROM LOADER OUTPUT under both default dtypes, then written to in place (load_state_dict, buffer.mul_):
+    # a module's filters are its own; what the loaders hand out later must still be the shipped tables
+    written = 0
+    try:
+        import torch
+        from pytorch_wavelets import DTCWTForward, DTCWTInverse, DWTForward, DWTInverse, DWT1DForward, DWT1DInverse
+        old = torch.get_default_dtype()
+        try:
+            for dt in (torch.float32, torch.float64):
+                torch.set_default_dtype(dt)
+                mods = []
+                for s_ in ['qshift_06', 'qshift_a', 'qshift_b', 'qshift_c', 'qshift_d']:
+                    h0a, h0b, g0a, g0b, h1a, h1b, g1a, g1b = coeffs.qshift(s_)[:8]
+                    for ctor in (lambda: DWTForward(J=1, wave=(h0a, h1a)), lambda: DWTInverse(wave=(g0a, g1a)), lambda: DWT1DForward(J=1, wave=(h0b, h1b)),
+                                 lambda: DWT1DInverse(wave=(g0b, g1b)), lambda: DWTForward(J=1, wave=(h0a, h1a, h0b, h1b)), lambda: DWTInverse(wave=(g0a, g1a, g0b, g1b)),
+                                 lambda: DTCWTForward(biort='near_sym_a', qshift=s_, J=2), lambda: DTCWTInverse(biort='near_sym_a', qshift=s_)):
+                        try:
+                            mods.append(ctor())
+                        except Exception:
+                            pass
+                for b_ in ['antonini', 'legall', 'near_sym_a', 'near_sym_b', 'near_sym_b_bp']:
+                    t_ = coeffs.level1(b_, compact=True)
+                    h0o, g0o, h1o, g1o = t_[:4]
+                    for ctor in (lambda: DWTForward(J=1, wave=(h0o, h1o)), lambda: DWTInverse(wave=(g0o, g1o)), lambda: DWT1DInverse(wave=(g0o, g1o))):
+                        try:
+                            mods.append(ctor())
+                        except Exception:
+                            pass
+                try:
+                    from pytorch_wavelets.dtcwt import lowlevel2
+                    for cls in ('DTCWTForward2', 'DTCWTInverse2'):
+                        for kw in ({}, {'qshift': 'qshift_a'}, {'biort': 'near_sym_a', 'qshift': 'qshift_b'}):
+                            try:
+                                mods.append(getattr(lowlevel2, cls)(**kw))
+                            except Exception:
+                                pass
+                except Exception:
+                    pass
+                with torch.no_grad():
+                    for m_ in mods:
+                        sd = {k: v.clone() * 0 + 7 for k, v in m_.state_dict().items()}
+                        for t_ in list(m_.buffers()) + list(m_.parameters()):
+                            t_.mul_(1.25); written += 1
+                        m_.load_state_dict(sd)
+        finally:
+            torch.set_default_dtype(old)
+    except Exception as e:
+        ck.notes.append('in-place write phase raised %s: %s' % (type(e).__name__, str(e)[:80]))
+    ck.extra['module_tensors_written_in_place'] = written
+    loader_check('after-in-place-writes-to-module-filters')
     st.samples.append({'loader_calls': st.evaluations, 'files': sorted(files)})
 
 
